@@ -1,51 +1,54 @@
 (* C11 — the router after any edit history equals a freshly built router.
-   Only statements; proofs in proofs/C11_proofs.v (on top of the C01
-   development).  filt is universally quantified as in C01.
+   Only statements; proofs in proofs/C11_proofs.v, C11_hooks.v, C11_fresh.v (on
+   top of the C01 development).  filt is universally quantified as in C01.
 
-   What is proved here, for ALL histories (no depth bound):
-   * the exact effect of RadiDict.remove — exact, prefix "*" and hooks-only
-     mode, with upward pruning and _try_merge — on what the tree holds, and that
-     it keeps the tree well-formed (C11_remove_exact_effect);
-   * installing / updating / removing hooks never changes the routes held;
-   * after any history the tree holds exactly the routes the `routes` index
-     lists (C11_history_tree_matches_index), hence — by C01's get_dfs_spec, which
-     makes the answer independent of the tree's shape — every path is resolved
-     as the rule-by-rule spec resolves it on the surviving index
-     (C11_history_eq_fresh_partial).  A freshly built router satisfies the same
-     equation (C01_resolve_eq_spec), so both sides of the property equal one
-     spec value.
+   Proved, for ALL histories (no depth bound):
+   * C11_remove_exact_effect — RadiDict.remove (exact, prefix "*", hooks-only;
+     upward pruning, _try_merge) keeps the tree well-formed and removes exactly
+     the named routes;  C11_hook_install_keeps_routes;
+   * C11_history_tree_matches_index, C11_history_eq_fresh_partial — after any
+     history the tree holds exactly the routes of the index, and every path is
+     resolved as the rule-by-rule spec resolves it on the surviving index.
+   Proved for the hook slots:
+   * C11_lookup_collects_held_hooks (any well-formed tree): a lookup collects
+     exactly the hooks held under the pattern-prefixes of the selected route,
+     outermost first, with the position reached after each prefix;
+   * C11_hook_slots_insert (registrations never touch a hook; a hook
+     installation adds exactly one),  C11_remove_keeps_hooks (a route removal with
+     all its pruning and merging keeps every hook — the repaired F14 —, and
+     remove_hook removes exactly its hook);
+   * C11_hooks_fire_exactly_partial and C11_same_survivors_same_answers_partial:
+     for all histories WITHOUT prefix-"*" removals, the hooks collected are
+     exactly those of the hooks index whose pattern is a prefix of the matched
+     route's pattern, and two routers with the same surviving routes and hooks
+     answer every request identically (route, handler, kwargs, hook list) — a
+     freshly built router with the same survivors is one of them.
 
-   NOT YET PROVED (the model, the correspondence after every operation and the
-   fresh-router oracle cover them; see tools/props/C11.py):
+   (* FULL STATEMENT, NOT YET PROVED:
+      Theorem C11_hooks_fire_exactly : the statement of C11_hooks_fire_exactly_partial for
+        all ADMISSIBLE histories, i.e. also with prefix removals "P*" applied when
+        no installed hook pattern properly extends P.
+      Missing: the hook-slot view of the prefix cut (remove_hpaths for wild = true:
+      under admissibility no hook lies below the cut node, so hpaths is unchanged). *)
 
    (* FULL STATEMENT, NOT YET PROVED:
       Theorem C11_history_eq_fresh : forall filt ops path cds,
         Forall hist_cmd ops -> admissible ops ->
         let R := exec_cmds router0 ops in
-        resolve filt R path cds = resolve filt (fresh R) path cds      (* incl. the hook list *)
+        answer R (resolve filt R path cds) = answer (fresh R) (resolve filt (fresh R) path cds)
         /\ by_name R = by_name (fresh R) /\ by_rule R = by_rule (fresh R) /\ listing R = listing (fresh R)
-      where fresh R = the empty router + the routes of (routes R) inserted in index
-      order + the hooks of (hooks_idx R); admissible = a prefix removal "P*" only
-      when no installed hook pattern properly extends P.
-      Missing: (1) the analogue of insert_paths / C11_remove_exact_effect for the
-      hook slots (hook_paths (tree R) = hooks_idx R), (2) that re-inserting the
-      surviving routes into an empty tree never fails (needs: two patterns held
-      by one well-formed tree never conflict), (3) the index-level equalities. *)
-
-   (* FULL STATEMENT, NOT YET PROVED:
-      Theorem C11_hooks_fire_exactly : forall filt ops path cds d m h kw hs,
-        Forall hist_cmd ops -> admissible ops ->
-        let R := exec_cmds router0 ops in
-        resolve filt R path cds = ROk d m h kw hs ->
-        exists qs, hs = map (fun q => (consumed filt (fst q) (strip_sep path), snd q)) qs /\
-                   StronglySorted (fun a b => length (fst a) < length (fst b)) qs /\
-                   forall q hp, In (q, hp) qs <->
-                     (exists p fl, al_get (hooks_idx R) p = Some hp /\ q = fpat p fl) /\
-                     is_prefix q (pattern selected for d)
-      (Ombott.handler then calls the SIMPLE hooks in that order with path[:1+pos],
-       which is Router.fired_simple — part of the model and of the correspondence.) *) *)
+      where fresh R = exec_cmds router0 (replay R), replay R = one registration per
+      surviving route and method (index order) + one hook installation per hook.
+      By C11_same_survivors_same_answers_partial what is missing is only:
+      (1) that replay R is accepted and reproduces content R and hooks_idx R
+          (re-inserting patterns that one well-formed tree already holds never
+          fails; replaying a method table reproduces it),
+      (2) the prefix-removal case above, (3) the by_rule equality (RadiRouter._match
+          finds exactly the indexed routes); by_name and listing are the indexes
+          themselves. *) *)
+From Coq Require Import Sorting.Sorted.
 From Verif Require Import lib.Base lib.Str gen.Gen model.RouteSpec model.Dispatch model.Router
-     proofs.C01_get proofs.C01_insert proofs.C01_router proofs.C11_proofs.
+     proofs.C01_get proofs.C01_insert proofs.C01_router proofs.C11_proofs proofs.C11_hooks proofs.C11_fresh.
 
 (* RadiDict.remove(pattern, hooks_only, exact): the tree stays well-formed and
    holds afterwards exactly the entries it held before, minus — unless
@@ -111,6 +114,76 @@ Theorem C11_history_eq_fresh_partial : forall filt (cs : list cmd) (path : str) 
 Proof. exact history_route_eq_spec_lemma. Qed.
 Print Assumptions C11_history_eq_fresh_partial.
 
+(* ---- the hook slots ---- *)
+
+(* On ANY well-formed tree a successful lookup returns a held pattern p that
+   matches, and its hook list is exactly: the hook entries the tree holds whose
+   pattern is a prefix of p, in order of increasing pattern length (outermost
+   first), each with the position the path has reached after matching that
+   prefix (Ombott.handler cuts the path there: Router.fired_simple). *)
+Theorem C11_lookup_collects_held_hooks : forall filt root path d nm vs hs,
+  wf root -> get filt true root path = GFound d nm vs hs ->
+  exists p, In (p, (d, nm)) (paths root) /\ matchf filt p path = Some vs /\
+            hooks_ok filt (hpaths root) p path 0 hs.
+Proof. exact get_trace_root. Qed.
+Print Assumptions C11_lookup_collects_held_hooks.
+
+(* _set seen from the hook slots: a route registration (node splits included)
+   leaves every hook where it is; a hook installation adds exactly its pair. *)
+Theorem C11_hook_slots_insert : forall root route fl it nm root',
+  wf root -> ntok route <= length fl -> set_at root route fl 0 it nm = SOk root' ->
+  forall e, In e (hpaths root') <->
+            In e (map (hpre (fpat route fl)) (hitem_entries it nm)) \/ In e (hpaths root).
+Proof. exact insert_hpaths. Qed.
+Print Assumptions C11_hook_slots_insert.
+
+(* remove seen from the hook slots (exact patterns): removing a route — with
+   the upward pruning and merging it triggers — keeps EVERY hook (fix F14);
+   remove(hooks_only) removes exactly the hook of that pattern. *)
+Theorem C11_remove_keeps_hooks : forall root pattern ho exact root',
+  wf root -> ends_star pattern && negb exact = false ->
+  rd_remove root pattern ho exact = Some root' ->
+  forall e, In e (hpaths root') <-> In e (hpaths root) /\ (ho = false \/ rstr (fst e) <> pattern).
+Proof. exact remove_hpaths_exact. Qed.
+Print Assumptions C11_remove_keeps_hooks.
+
+(* PARTIAL (histories without prefix-"*" removals): a route hook fires for
+   exactly those matched routes whose pattern extends the hook's pattern,
+   outermost first, at the position reached after matching the hook's prefix:
+   qs lists (hook pattern, hook pair) by increasing length, hs is qs with
+   positions (hrel), every member of qs is an entry of the hooks index whose
+   pattern is a prefix of the matched route's, and every such index entry is
+   in qs. *)
+Theorem C11_hooks_fire_exactly_partial : forall filt (cs : list cmd) path cds d m h kw hs,
+  Forall noprefix_cmd cs ->
+  let R := exec_cmds router0 cs in
+  resolve filt R path cds = ROk d m h kw hs ->
+  exists rt qs,
+    nth_error (heap R) d = Some rt /\
+    Forall2 (hrel filt 0 (strip_sep path)) qs hs /\
+    StronglySorted (fun a b : hentry => length (fst a) < length (fst b)) qs /\
+    (forall q hp, In (q, hp) qs ->
+       al_get (hooks_idx R) (rstr q) = Some hp /\ pprefix q (fpat (r_pattern rt) (r_filters rt))) /\
+    (forall ph hp, al_get (hooks_idx R) ph = Some hp -> prefixb ph (r_pattern rt) = true ->
+       exists q, rstr q = ph /\ In (q, hp) qs).
+Proof. exact hooks_fire_lemma. Qed.
+Print Assumptions C11_hooks_fire_exactly_partial.
+
+(* PARTIAL (histories without prefix-"*" removals): the answer to a request —
+   404 / 405+Allow / (rule, method, handler, kwargs, hook list) — depends only
+   on what survived: two reachable routers with the same surviving routes
+   (pattern -> Route contents, in index order) and the same hooks index answer
+   identically, whatever splits, prunings and merges their trees went through.
+   A router freshly built from the surviving indexes is such a router. *)
+Theorem C11_same_survivors_same_answers_partial :
+  forall filt (cs cs' : list cmd) (path : str) (cds : list str),
+  Forall noprefix_cmd cs -> Forall noprefix_cmd cs' ->
+  let R := exec_cmds router0 cs in let R' := exec_cmds router0 cs' in
+  content R = content R' -> hooks_idx R = hooks_idx R' ->
+  answer R (resolve filt R path cds) = answer R' (resolve filt R' path cds).
+Proof. exact same_survivors_lemma. Qed.
+Print Assumptions C11_same_survivors_same_answers_partial.
+
 (* non-vacuity: the witnesses of the repaired defects F14, F15, F33 and a
    prefix-removal / prune / merge history, evaluated on the model *)
 Example C11_nonvacuous :
@@ -134,3 +207,14 @@ Example C11_nonvacuous :
    map fst (routes R) = [s_a] /\ resolve nofilt R (47%N :: s_a) [s_get] = ROk 2 s_get 3 [] [] /\
    exists vs hs i, resolve nofilt R (47%N :: s_abc) [s_get] = R404 vs hs i).
 Proof. exact c11_nonvacuous_lemma. Qed.
+
+Example C11_same_survivors_nonvacuous :
+  let cs := [CAddHook s_ab [] [] 50 false; CAdd 0 s_abc [] [] [s_get] 1 None false;
+             CAdd 1 s_ab [] [] [s_get] 2 None false; CRemovePattern s_ab] in
+  let cs' := [CAdd 0 s_abc [] [] [s_get] 1 None false; CAddHook s_ab [] [] 50 false] in
+  Forall noprefix_cmd cs /\ Forall noprefix_cmd cs' /\
+  content (exec_cmds router0 cs) = content (exec_cmds router0 cs') /\
+  hooks_idx (exec_cmds router0 cs) = hooks_idx (exec_cmds router0 cs') /\
+  answer (exec_cmds router0 cs) (resolve nofilt (exec_cmds router0 cs) (47%N :: s_abc) [s_get])
+  = AOk 0 s_get 1 [] [(3, (Some 50, None))].
+Proof. exact same_survivors_nonvacuous_lemma. Qed.
